@@ -13,16 +13,16 @@ PROP = {
             "protocol, optionally with sender steps between the withdraw and the announcement of one replacement; "
             "Dequeue of a chosen pending key; EmitOne; EndOfRIB; a bulk change of 900-2300 prefixes that makes multi-message "
             "batches) over 2-4 prefixes and 3-4 paths (two differ in ATOMIC_AGGREGATE only), then a drain that flushes the "
-            "pending keys in every order when there are <= 3 of them; session kinds IPv4/IPv4-MP/IPv6-MP x add-path x "
+            "pending keys in every order when there are <= 3 of them; every fourth history runs the REAL sender goroutine (UpdateSender.Start) against a connection whose Write blocks until released, route changes are made while it is blocked; session kinds IPv4/IPv4-MP/IPv6-MP x add-path x "
             "iBGP/eBGP x RR client; a case is non-trivial when a withdrawal met an announcement of the same prefix/path id "
-            "that was still queued or in flight; distinct = distinct inputs",
+            "that was still queued or in flight, or (real goroutine) a route change was made while the goroutine was blocked in a Write; distinct = distinct inputs",
     "trusted_base": [
         "extraction (ExtrOcamlBasic only) + ocaml/common/conv.ml + ocaml/c10/c10_run.ml",
         "Go harness harness/cmd/c10 + harness/usx (controlled scheduler, capture writer in place of the connection, "
         "reference UPDATE decoder written from RFC 4271/4760/7911, replay into the peer's view, spec oracle against "
         "AdjRIBOut.Dump) and the hook protocols/bgp/server/verif_hooks_c10.go: Dequeue/EmitOne repeat the two halves of one "
         "iteration of the loop in sender() (the goroutine itself is not started); the key an iteration visits is chosen "
-        "by the harness, the order EndOfRIB's _flush visits the entries in is observed from the wire",
+        "by the harness, the order EndOfRIB's _flush visits the entries in is observed from the wire; the real loop of sender() is covered by the real-goroutine stream (harness/usx/real.go: gated connection, Start/Stop through the hook)",
         "modelled, not verified: sync.Mutex as mutual exclusion, one Write per UPDATE as atomic, Go map iteration order as "
         "an arbitrary input, sha256 as identity on the hashed tuple, TCP as a reliable ordered byte pipe",
     ],
